@@ -11,7 +11,7 @@ PROPERTY = "C16"
 LEVEL = "exploration"
 SCENARIOS = {"up-expedited": 1, "up-normal": 2, "up-segmented": 2,
              "down-expedited": 1, "down-normal": 2, "down-segmented": 2}
-TIERS = {"quick": {"runs": 12600, "chunk": 40}, "thorough": {"runs": 420000, "chunk": 200}}
+TIERS = {"quick": {"runs": 12600, "chunk": 40}, "thorough": {"runs": 50000000, "wall_s": 600, "chunk": 200, "recheck": 16}}
 RULE = ("one run = one simulated terminal with mailbox sizes drawn from "
         "{24,32,48,128,256} (write and read mailbox independently) behind an "
         "ETG.1000.6-conformant strict SDO server, 1-4 transfers of the scenario's class "
